@@ -252,3 +252,144 @@ func fxCheckCounts(c *Ctx, fn *ssa.Function) {
 		}
 	}
 }
+
+// R-CNT-2 (added after seeded change C05-2, DESIGN §8): multi-table UPDATE /
+// DELETE count records, not joined rows.
+func init() {
+	Register(&Rule{ID: "R-CNT-2", Props: []string{"C05"}, Floor: 2,
+		Doc: "the per-table counts returned by the multi-table forms of UPDATE and DELETE count distinct records: each returned count is the size of a set (len of a map), or a counter whose every increment is dominated by a 'this record id was not seen before' test (a failed membership lookup keyed by the record id) — a target record that matches several rows of the joined view must be counted once",
+		Run: ruleCnt2})
+}
+
+func ruleCnt2(c *Ctx) {
+	for _, fname := range []string{"lib/query.Update", "lib/query.Delete"} {
+		fn := c.Fn(fname)
+		if fn == nil {
+			continue
+		}
+		// values appended to the returned []int
+		var counted []ssa.Value
+		for _, r := range core.Returns(fn) {
+			for i, res := range r.Results {
+				sl, ok := res.Type().Underlying().(*types.Slice)
+				if !ok {
+					continue
+				}
+				if b, ok := sl.Elem().Underlying().(*types.Basic); !ok || b.Kind() != types.Int {
+					continue
+				}
+				_ = i
+				seen := map[ssa.Value]bool{}
+				var walk func(v ssa.Value)
+				walk = func(v ssa.Value) {
+					if v == nil || seen[v] {
+						return
+					}
+					seen[v] = true
+					switch x := v.(type) {
+					case *ssa.Phi:
+						for _, e := range x.Edges {
+							walk(e)
+						}
+					case *ssa.Call:
+						if bi, ok := x.Common().Value.(*ssa.Builtin); ok && bi.Name() == "append" {
+							walk(x.Common().Args[0])
+							if len(x.Common().Args) > 1 {
+								if s2, ok := x.Common().Args[1].(*ssa.Slice); ok {
+									if al, ok := s2.X.(*ssa.Alloc); ok {
+										for _, rr := range *al.Referrers() {
+											if ia, ok := rr.(*ssa.IndexAddr); ok {
+												for _, r3 := range *ia.Referrers() {
+													if st, ok := r3.(*ssa.Store); ok {
+														counted = append(counted, st.Val)
+													}
+												}
+											}
+										}
+									}
+								}
+							}
+						}
+					case *ssa.UnOp:
+						for _, o := range core.Origins(x, false) {
+							if o != v {
+								walk(o)
+							}
+						}
+					}
+				}
+				for _, v := range core.ReturnOperand(r, i) {
+					walk(v)
+				}
+			}
+		}
+		if len(counted) == 0 {
+			c.Unknown(c.KeyAt(fn, "returned counts"), c.FnPos(fn), "cannot-analyse: no value appended to a returned []int found")
+			continue
+		}
+		for n, v := range counted {
+			key := c.KeyAt(fn, fmt.Sprintf("returned count #%d", n+1))
+			// (a) len of a map
+			if call, ok := v.(*ssa.Call); ok {
+				if bi, ok := call.Common().Value.(*ssa.Builtin); ok && bi.Name() == "len" {
+					if _, isMap := call.Common().Args[0].Type().Underlying().(*types.Map); isMap {
+						c.Ok(key, c.Pos(call), "size of a set of record ids")
+						continue
+					}
+				}
+			}
+			// (b) a counter kept in a map: every increment is guarded by a failed membership test
+			lk, ok := v.(*ssa.Lookup)
+			if !ok {
+				c.Unknown(key, c.FnPos(fn), "cannot classify the source of the returned count (neither len of a set nor a counter map)")
+				continue
+			}
+			counterCell := cellOf(lk.X)
+			bad := ""
+			incs := 0
+			for _, b := range fn.Blocks {
+				for _, in := range b.Instrs {
+					mu, ok := in.(*ssa.MapUpdate)
+					if !ok {
+						continue
+					}
+					cc := cellOf(mu.Map)
+					if !(mu.Map == lk.X || (cc != nil && counterCell != nil && (cc == counterCell || core.SameAddr(cc, counterCell)))) {
+						continue
+					}
+					if _, isConst := mu.Value.(*ssa.Const); isConst {
+						continue // initialisation
+					}
+					incs++
+					guarded := false
+					for _, f := range core.FactsAt(b) {
+						if !f.Neg {
+							continue
+						}
+						// failed comma-ok lookup, or a false bool element
+						switch x := f.Cond.(type) {
+						case *ssa.Extract:
+							if _, ok := x.Tuple.(*ssa.Lookup); ok && x.Index == 1 {
+								guarded = true
+							}
+						case *ssa.Lookup:
+							guarded = true
+						case *ssa.UnOp:
+							if _, ok := x.X.(*ssa.IndexAddr); ok {
+								guarded = true
+							}
+						}
+					}
+					if !guarded {
+						bad = fmt.Sprintf("the counter is incremented at %s without a 'record not seen before' test", c.Pos(mu))
+					}
+				}
+			}
+			if incs == 0 {
+				c.Unknown(key, c.Pos(lk), "cannot-analyse: no increment of the counter map found")
+				continue
+			}
+			c.Check(bad == "", key, c.Pos(lk), "counter incremented only for a record id not seen before", bad+": a target record that matches several rows of the joined view is counted several times — the reported number of affected records is too high")
+		}
+	}
+}
